@@ -1,12 +1,12 @@
 \* exhaustive: the design with up to two create requests in flight satisfies the contract at every quiescent point
-\* (9 specification shapes, one target, user-role flag, a store fault in either section of a create, task limit, delete, restart; depth 4)
+\* (4 specification shapes incl. the partially overlapping pair, one target, user-role flag, a store fault in either section of a create, task limit, delete, restart; depth 5)
 SPECIFICATION Spec
 CHECK_DEADLOCK FALSE
 VIEW view
 INVARIANTS TypeOK Contract
 CONSTANTS
-  DBs = {"default", "d1", "*"}
-  Colls = {"c1", "c2", "*"}
+  DBs = {"default", "*"}
+  Colls = {"c1", "*"}
   UDBs = {"default", "d1", "d2"}
   UColls = {"c1", "c2", "c3"}
   Targets = {"A"}
@@ -16,7 +16,7 @@ CONSTANTS
   NoAutos = {FALSE}
   Faults = {0, 1, 4}
   DelFaults = {0}
-  MaxOps = 4
+  MaxOps = 5
   MaxLive = 3
   WithRestart = TRUE
   SimPrint = FALSE
